@@ -613,12 +613,18 @@ def c11_r7(ctx):
                     return scn == "list"
                 return None
             return atom
+        def _res(x):
+            """the returned value; a single-exit result variable stands for what it was assigned on this path"""
+            v = x.value
+            if isinstance(v, ast.Name) and v.id != vp and isinstance(x.env.get(v.id), ast.AST):
+                return strip_pre(x.env[v.id])
+            return strip_pre(v) if v is not None else v
         o = Interp(fi, mk("model")).run()
         probs = []
-        if len(o) != 1 or not isinstance(o[0].value, ast.Call) or dotted(o[0].value.func) != f"{vp}.model_dump":
+        if len(o) != 1 or not isinstance(_res(o[0]), ast.Call) or dotted(_res(o[0]).func) != f"{vp}.model_dump":
             probs.append(f"BaseModel values are not dumped with model_dump: {[x.text() for x in o]}")
         else:
-            c = o[0].value
+            c = _res(o[0])
             flags = {k.arg: k.value for k in c.keywords}
             cfg = _model_config(ctx.repo)
             for flag, cfgkey in (("by_alias", "serialize_by_alias"), ("exclude_unset", None)):
@@ -630,11 +636,12 @@ def c11_r7(ctx):
                     probs.append(f"model_dump passes {flag}= (explicit None / defaults set by the caller would be dropped)")
         ctx.check(not probs, key(fi, "model"), "; ".join(probs), fi.loc(), okmsg=f"{tag}: models dumped by_alias, exclude_unset")
         o = Interp(fi, mk("list")).run()
-        good = len(o) == 1 and isinstance(o[0].value, ast.ListComp) and norm(o[0].value.generators[0].iter) == vp \
-            and norm(o[0].value.elt) == f"self._convert_value({norm(o[0].value.generators[0].target)})" and not o[0].value.generators[0].ifs
+        lv = _res(o[0]) if len(o) == 1 else None
+        good = len(o) == 1 and isinstance(lv, ast.ListComp) and norm(lv.generators[0].iter) == vp \
+            and norm(lv.elt) == f"self._convert_value({norm(lv.generators[0].target)})" and not lv.generators[0].ifs
         ctx.check(good, key(fi, "list"), f"list values must be converted element-wise, got {[x.text() for x in o]}", fi.loc(), okmsg=f"{tag}: lists converted element-wise")
         o = Interp(fi, mk("other")).run()
-        good = len(o) == 1 and o[0].kind == "return" and is_name(o[0].value, vp)
+        good = len(o) == 1 and o[0].kind == "return" and is_name(_res(o[0]), vp)
         ctx.check(good, key(fi, "leaf"), f"other values must pass through unchanged, got {[x.text() for x in o]}", fi.loc(), okmsg=f"{tag}: leaves unchanged")
 
         # _process_variables
